@@ -247,7 +247,10 @@ def r_idx_pair(ck: Checker) -> None:
             if isinstance(st, ast.Assign) and st.value is reads[0]:
                 var = norm(st.targets[0])
         keys = {norm(c.args[0]) if isinstance(c, ast.Call) else norm(c.slice) for c in look}
-        ok = keys == {var} if var is not None else keys == {norm(reads[0])}
+        # the table is consulted with the value read under the key (directly or through the local holding it); a second lookup
+        # with the registry id of the re-created object is the non-index form
+        direct = {var, norm(reads[0])} - {None}
+        ok = bool(keys & direct) and all(k_ in direct or k_.endswith(".source_registry_id") for k_ in keys)
     (ck.holds if ok else ck.violation)("R-IDX-PAIR", s, s.node, what, **({} if ok else {"construct": f"writer key {wk} value {wv}; reader key {rk}; lookups {[norm(l)[:50] for l in look]}"}))
     stores = sorted([st for st in walk_body(p.node.body) if isinstance(st, ast.Assign) and isinstance(st.targets[0], ast.Subscript)], key=lambda x: x.lineno)
     what = "both source tables are filled together in Source.__post_init__ with the same index"
@@ -260,7 +263,7 @@ def r_idx_pair(ck: Checker) -> None:
         ok = a is not None and b is not None and a[0] == "self" and b[1] == "self" and a[1] == b[0] and not a[1].startswith("len(")
     (ck.holds if ok else ck.violation)("R-IDX-PAIR", p, p.node, what, **({} if ok else {"construct": f"Source.__post_init__ stores {[norm(s_) for s_ in stores]}"}))
     what = "an unknown index raises instead of fabricating a source"
-    dl = decision_tree(strip_docstring(d.node.body), max_atoms=10)
+    dl = decision_tree(strip_docstring(d.node.body), max_atoms=10, resolve="calls")
     bad_ = None
     n_look = 0
     for lf in dl:
